@@ -406,3 +406,115 @@ pub fn nan_inputs() -> Vec<(String, Vec<u8>)> {
     }
     out
 }
+
+fn f16_bits_to_f64(h: u16) -> f64 {
+    let sign = if h & 0x8000 != 0 { -1.0 } else { 1.0 };
+    let exp = i32::from((h >> 10) & 0x1f);
+    let mant = f64::from(h & 0x03ff);
+    match exp {
+        0 => sign * mant * 2f64.powi(-24),
+        31 => {
+            if mant == 0.0 {
+                sign * f64::INFINITY
+            } else {
+                f64::NAN
+            }
+        }
+        e => sign * (1.0 + mant / 1024.0) * 2f64.powi(e - 15),
+    }
+}
+
+/// Every spelling width of boundary numbers: each float atom (one per class per width, ±0, ±inf,
+/// subnormals, integral floats) written as f16 / f32 / f64 wherever the conversion is exact, and
+/// each boundary integer / length written with every argument width that can carry it (majors 0–5,
+/// with an exact payload where that is ≤ 64 Ki elements) — bare, inside a one-element array and as
+/// a map value.  Exactly one spelling per value is canonical; every other one must be rejected.
+pub fn width_inputs() -> Vec<(String, Vec<u8>)> {
+    let mut bare: Vec<(String, Vec<u8>)> = Vec::new();
+    let floats: Vec<f64> = vec![
+        0.5, -0.5, 1.5, 1023.5, 2f64.powi(-24), -3.0 * 2f64.powi(-24), 2f64.powi(-14), f64::INFINITY, f64::NEG_INFINITY,
+        f64::from(0.1f32), -f64::from(0.1f32), f64::from(f32::from_bits(1)), f64::from(f32::MIN_POSITIVE), f64::from(f32::MAX), 65504.25,
+        0.1, -0.1, std::f64::consts::PI, f64::from_bits(1), f64::MIN_POSITIVE, f64::MAX, f64::MIN,
+        0.0, -0.0, 1.0, -1.0, 24.0, 65504.0, 4294967296.0, 9007199254740992.0, -9223372036854775808.0, 18446744073709551616.0, 1e30,
+    ];
+    for f in floats {
+        // f16: search the exact bit pattern
+        for h in 0u32..=0xffff {
+            let h = h as u16;
+            let v = f16_bits_to_f64(h);
+            if v.to_bits() == f.to_bits() {
+                bare.push((format!("float:{f:?}:as-f16"), vec![0xf9, (h >> 8) as u8, h as u8]));
+            }
+        }
+        let s = f as f32;
+        if f64::from(s).to_bits() == f.to_bits() {
+            let mut b = vec![0xfa];
+            b.extend_from_slice(&s.to_bits().to_be_bytes());
+            bare.push((format!("float:{f:?}:as-f32"), b));
+        }
+        let mut b = vec![0xfb];
+        b.extend_from_slice(&f.to_bits().to_be_bytes());
+        bare.push((format!("float:{f:?}:as-f64"), b));
+    }
+    let ints: Vec<u64> = vec![0, 1, 23, 24, 255, 256, 65535, 65536, (1 << 32) - 1, 1 << 32, (1 << 32) + 1, 1 << 53, (1 << 63) - 1, 1 << 63, u64::MAX];
+    for major in 0u8..=5 {
+        for &n in &ints {
+            let mut heads: Vec<(u8, Vec<u8>)> = Vec::new();
+            if n <= 23 {
+                heads.push((0, vec![(major << 5) | n as u8]));
+            }
+            if n <= 0xff {
+                heads.push((1, vec![(major << 5) | 24, n as u8]));
+            }
+            if n <= 0xffff {
+                let mut h = vec![(major << 5) | 25];
+                h.extend_from_slice(&(n as u16).to_be_bytes());
+                heads.push((2, h));
+            }
+            if n <= 0xffff_ffff {
+                let mut h = vec![(major << 5) | 26];
+                h.extend_from_slice(&(n as u32).to_be_bytes());
+                heads.push((4, h));
+            }
+            let mut h = vec![(major << 5) | 27];
+            h.extend_from_slice(&n.to_be_bytes());
+            heads.push((8, h));
+            for (w, mut h) in heads {
+                match major {
+                    0 | 1 => {}
+                    2 | 3 if n <= 65536 => h.extend(std::iter::repeat(b'a').take(n as usize)),
+                    4 if n <= 65536 => h.extend(std::iter::repeat(0x00).take(n as usize)),
+                    5 if n <= 256 => {
+                        for k in 0..n {
+                            // canonical ascending integer keys
+                            if k <= 23 {
+                                h.push(k as u8);
+                            } else if k <= 0xff {
+                                h.extend_from_slice(&[0x18, k as u8]);
+                            } else {
+                                h.push(0x19);
+                                h.extend_from_slice(&(k as u16).to_be_bytes());
+                            }
+                            h.push(0x00);
+                        }
+                    }
+                    _ => continue,
+                }
+                bare.push((format!("major{major}:{n}:width{w}"), h));
+            }
+        }
+    }
+    let mut out = Vec::new();
+    for (l, b) in bare {
+        if b.len() <= 64 {
+            let mut arr = vec![0x81];
+            arr.extend_from_slice(&b);
+            let mut map = vec![0xa1, 0x61, b'k'];
+            map.extend_from_slice(&b);
+            out.push((format!("array:{l}"), arr));
+            out.push((format!("mapval:{l}"), map));
+        }
+        out.push((l, b));
+    }
+    out
+}
